@@ -132,6 +132,9 @@ impl<I: Into<u128>> vstd::std_specs::ops::DivSpecImpl<I> for FineDuration {
 }
 pub assume_specification[ <FineDuration as core::default::Default>::default ]() -> (r: FineDuration)
     ensures r.picos == 0;
+// std functions a tidy-up of this code is likely to use (not used by the current text)
+pub assume_specification<'a, T: Copy> [core::option::Option::<&'a T>::copied] (o: Option<&'a T>) -> (r: Option<T>)
+    ensures r == (match o { Some(x) => Some(*x), None => None });
 
 // ---- the statement of C05 for the time columns
 pub open spec fn durs(s: Seq<TimeSample>) -> Seq<int> { s.map_values(|t: TimeSample| t.duration.picos as int) }
@@ -404,7 +407,7 @@ def time_core_files(S: Sources):
         (SUM_RE, r"sum_picos_refs(\1)", "opt"),      # if the median is computed without this iterator sum, nothing is replaced
         # closure headers get a contract; the closure's expression stays
         (r"\.\s*map\s*\(\s*\|\s*(\w+)\s*\|\s*([^()|{}]*(?:\([^()]*\)[^()|{}]*)*)\)",
-         r".map(|\1: &&TimeSample| -> (o: FineDuration) requires sample_size > 0, ensures o.picos == \1.duration.picos / (sample_size as u128), { \2 })", 2),
+         r".map(|\1| -> (o: FineDuration) requires sample_size > 0, ensures o.picos == \1.duration.picos / (sample_size as u128), { \2 })", 2),
     ]
     for pat, rep, cnt in subs:
         r1, k = re.subn(pat, rep, r1)
